@@ -85,8 +85,6 @@ Variable Pos : position -> Prop.
 Hypothesis Hclosed : forall p q, Pos p -> is_over p = false -> In q (children basis p) -> Pos q.
 (* C03 (generator complete): a move that MovePreallocated accepts leads to a position that a generated move leads to *)
 Hypothesis Hhint : forall p m q, Pos p -> is_over p = false -> okm m -> try_move basis p m = Some q -> In q (children basis p).
-(* the model's loop bounds (700) are not reached: allocMoves is 500 in the Go code *)
-Hypothesis Hlen : forall p, Pos p -> is_over p = false -> Z.of_nat (length (all_moves p)) <= 690.
 (* an unfinished game has a legal move *)
 Hypothesis Hlive : forall p, Pos p -> is_over p = false -> children basis p <> [].
 
@@ -153,10 +151,8 @@ Proof.
     pose proof (gen_step 0 g seen s G HS HF) as ST. cbn [mg_next step_ok] in ST.
     destruct some_child as (q & Hq & E). rewrite E. apply HSEEN. apply ST. assumption. }
   cbn [zw_loop].
-  assert (F700 : len + 6 - g_i g < Z.of_nat 700).
-  { pose proof (gi_i0 _ _ _ _ G). pose proof (Hlen p Hp Hover). unfold len. lia. }
-  pose proof (gen_step 700 g seen s G HS F700) as ST.
-  destruct (mg_next pinned basis cfg 700 s g) as [g' [[m q]|]]; cbn [step_ok] in ST.
+  pose proof (gen_step (gfuel g) g seen s G HS (gfuel_ok _ _ _ _ G)) as ST.
+  destruct (mg_next pinned basis cfg (gfuel g) s g) as [g' [[m q]|]]; cbn [step_ok] in ST.
   2:{ refine (conj HS (conj HB (conj eq_refl _))). destruct some_child as (q & Hq & E). rewrite E. apply HSEEN. apply ST. assumption. }
   destruct ST as (Hm & HT & Hq & G' & HLT & _).
   assert (Hpq : Pos q) by (apply (Hclosed p q Hp Hover Hq)).
@@ -233,10 +229,8 @@ Proof.
   { cbn [pv_loop]. refine (conj HS (conj HB (conj eq_refl _))). apply DONE.
     pose proof (gen_step 0 g seen s G HS HF) as ST; cbn [mg_next step_ok] in ST; exact ST. }
   cbn [pv_loop].
-  assert (F700 : len + 6 - g_i g < Z.of_nat 700).
-  { pose proof (gi_i0 _ _ _ _ G). pose proof (Hlen p Hp Hover). unfold len. lia. }
-  pose proof (gen_step 700 g seen s G HS F700) as ST.
-  destruct (mg_next pinned basis cfg 700 s g) as [g' [[m q]|]]; cbn [step_ok] in ST.
+  pose proof (gen_step (gfuel g) g seen s G HS (gfuel_ok _ _ _ _ G)) as ST.
+  destruct (mg_next pinned basis cfg (gfuel g) s g) as [g' [[m q]|]]; cbn [step_ok] in ST.
   2:{ refine (conj HS (conj HB (conj eq_refl _))). apply DONE; exact ST. }
   destruct ST as (Hm & HT & Hq & G' & HLT & _).
   pose proof (pv_child_ok (set_fm s ply m) q ply best a b (i + 1) (SI_set_fm _ _ _ HS) Hq HB ltac:(lia)) as R.
@@ -281,18 +275,17 @@ Proof.
     destruct zw; unfold zw_spec, pv_spec, head_spec; [lia|]. split; [lia|]. intros _ F; rewrite EO in F; discriminate F. }
   match goal with |- context [tt_probe basis ?s1 p ply ?dd a ?bb] =>
     assert (HS1 : SI s1) by (apply SI_bump; assumption); rewrite (tt_probe_none basis s1 p ply dd a bb (proj1 HS1)); set (sb := s1) in * end.
-  pose proof (Hlen p Hp EO) as HL.
   destruct zw.
   - (* zwSearch *)
     unfold zw_node. unfold null_move_ok. rewrite Hnonull.
     unfold zw_reduce, reduce_slide. rewrite Hnoreduce. cbn [negb andb].
     unfold zw_mc. rewrite Hnomc. cbn [andb]. unfold zw_tail.
-    pose proof (zw_loop_ok d' rec Hrec p Hp EO ply a cut 700 sb (set_i (new_gen sb None pv ply (Z.of_nat (S d')) p) 0) 0
+    pose proof (zw_loop_ok d' rec Hrec p Hp EO ply a cut (gfuel (set_i (new_gen sb None pv ply (Z.of_nat (S d')) p) 0)) sb (set_i (new_gen sb None pv ply (Z.of_nat (S d')) p) 0) 0
                   (firstn 1 (znth (fpv sb) ply [])) []
                   HS1 (GI_seti0 _ _ _ _ (gi_new p sb pv ply _ Hp Hpv) eq_refl)
-                  (Forall_firstn _ _ _ (okl_frame sb ply HS1)) ltac:(cbn [set_i g_i]; lia) ltac:(intros q F; destruct F)) as L.
+                  (Forall_firstn _ _ _ (okl_frame sb ply HS1)) (gfuel_ok _ _ _ _ (GI_seti0 _ _ _ _ (gi_new p sb pv ply _ Hp Hpv) eq_refl)) ltac:(intros q F; destruct F)) as L.
     cbv zeta in L.
-    destruct (zw_loop pinned basis cfg 0 rec 700 ply (Z.of_nat (S d')) a cut sb (set_i (new_gen sb None pv ply (Z.of_nat (S d')) p) 0) 0
+    destruct (zw_loop pinned basis cfg 0 rec (gfuel (set_i (new_gen sb None pv ply (Z.of_nat (S d')) p) 0)) ply (Z.of_nat (S d')) a cut sb (set_i (new_gen sb None pv ply (Z.of_nat (S d')) p) 0) 0
                 (firstn 1 (znth (fpv sb) ply []))) as [[[s2 best] didcut] ab].
     destruct L as (HS2 & HB2 & -> & V). cbn [fst snd]. rewrite (zw_store_none 0 s2 p _ best a didcut (proj1 HS2)).
     split; [assumption|]. split; [assumption|]. split; [intros F; discriminate F|]. unfold zw_spec. destruct didcut; lia.
@@ -302,11 +295,11 @@ Proof.
     assert (HB0 : okl best0) by (subst best0; destruct pv; [apply Forall_firstn; apply okl_frame; assumption|assumption]).
     set (s2 := set_fpv sb ply (set_prefix (znth (fpv sb) ply []) best0)).
     assert (HS2 : SI s2) by (apply SI_set_fpv; [assumption|apply okl_set_prefix; [apply okl_frame; assumption|assumption]]).
-    pose proof (pv_loop_ok d' rec Hrec p Hp EO ply a b 700 s2 (new_gen sb None pv ply (Z.of_nat (S d')) p) 0 best0 a false []
-                  HS2 (gi_new p sb pv ply _ Hp Hpv) HB0 ltac:(cbn [new_gen g_i]; lia) ltac:(lia) ltac:(intros q F; destruct F)
+    pose proof (pv_loop_ok d' rec Hrec p Hp EO ply a b (gfuel (new_gen sb None pv ply (Z.of_nat (S d')) p)) s2 (new_gen sb None pv ply (Z.of_nat (S d')) p) 0 best0 a false []
+                  HS2 (gi_new p sb pv ply _ Hp Hpv) HB0 (gfuel_ok _ _ _ _ (gi_new p sb pv ply _ Hp Hpv)) ltac:(lia) ltac:(intros q F; destruct F)
                   ltac:(left; split; reflexivity)) as L.
     cbv zeta in L.
-    destruct (pv_loop pinned basis cfg 0 rec 700 ply (Z.of_nat (S d')) b s2 (new_gen sb None pv ply (Z.of_nat (S d')) p) 0 best0 a false)
+    destruct (pv_loop pinned basis cfg 0 rec (gfuel (new_gen sb None pv ply (Z.of_nat (S d')) p)) ply (Z.of_nat (S d')) b s2 (new_gen sb None pv ply (Z.of_nat (S d')) p) 0 best0 a false)
       as [[[[s3 best] a'] improved] ab].
     destruct L as (HS3 & HB3 & -> & L1 & L2). cbn [fst snd]. rewrite (pv_store_none 0 s3 p _ best a' b improved (proj1 HS3)).
     split; [assumption|]. split; [assumption|]. split; [intros F; discriminate F|]. split.
@@ -395,7 +388,6 @@ Definition precise (cfg : config) : Prop := c_nonull cfg = true /\ c_noreduce cf
 Definition rules_facts (basis : list N) (cfg : config) (Pos : position -> Prop) : Prop :=
   (forall p q, Pos p -> is_over p = false -> In q (children basis p) -> Pos q) /\
   (forall p m q, Pos p -> is_over p = false -> okm m -> try_move basis p m = Some q -> In q (children basis p)) /\
-  (forall p, Pos p -> is_over p = false -> Z.of_nat (length (all_moves p)) <= 690) /\
   (forall p, Pos p -> is_over p = false -> children basis p <> []) /\
   (forall p, Pos p -> MinEval <= c_eval cfg p <= MaxEval).
 
@@ -404,8 +396,8 @@ Lemma analyze_precise_exact_fixed : forall basis cfg Pos, precise cfg -> rules_f
   analyze_search basis cfg s p = (sk, (pv, v, d, acc, c)) ->
   SI sk /\ (0 < d -> exact_result basis cfg p pv v d).
 Proof.
-  intros basis cfg Pos (P1 & P2 & P3) (R1 & R2 & R3 & R4 & R5) s p sk pv v d acc c HS Hp H.
-  exact (analyze_precise_exact false basis cfg P1 P2 P3 Pos R1 R2 R3 R4 R5 (c_depth cfg) s p sk pv v d acc c HS Hp H).
+  intros basis cfg Pos (P1 & P2 & P3) (R1 & R2 & R4 & R5) s p sk pv v d acc c HS Hp H.
+  exact (analyze_precise_exact false basis cfg P1 P2 P3 Pos R1 R2 R4 R5 (c_depth cfg) s p sk pv v d acc c HS Hp H).
 Qed.
 
 (* the assumptions are jointly satisfiable (they are not contradictory): winner-only evaluation, Pos = the finished games *)
